@@ -98,7 +98,7 @@ def cutStruct (w : W) (i : Nat) : W × Out :=
                free := (w1.free ++ touched.flatMap fun c => [c.2, c.1]).filter fun p => p.1 != i,
                mapping := w1.mapping.filter fun m => m.2.1 != i }, .ok)
 
-/-- Solver.remove_structure (repaired: connections_list follows connections) -/
+/-- Solver.remove_structure (repaired: connections_list follows connections; own tables emptied) -/
 def removeStruct (w : W) (i : Nat) : W × Out :=
   if !w.structs.contains i then (w, .exception) else
   match getObj w i with
@@ -107,6 +107,7 @@ def removeStruct (w : W) (i : Nat) : W × Out :=
     let w1 := o.connTo.foldl (fun w n => match getObj w n with
                                           | some on => setObj w n (removeConnections on i)
                                           | none => w) w
+    let w1 := setObj w1 i { o with conn := [], connTo := [] }
     let touched := w1.conns.filter (involves i)
     ({ w1 with structs := w1.structs.erase i,
                conns := w1.conns.filter fun c => !(involves i c),
